@@ -520,9 +520,14 @@ def fam_garbage_heads(rng, tier):
     for ak in ("utf8tail", "latin1tail", "empty", "padded"):
         for sub in (None, " a"):
             add(spec={"status": 101, "upgrade": " websocket", "connection": " Upgrade", "accept": ak, "subproto": sub})
-    for cl in ["abc", "-1", "-5", "0", "1e3", " 12 ", "12, 12", "99999999999", "100000000000", "65536", "1000000", "0x10", "", "١٢"]:
+    for cl in ["abc", "-1", "-5", "0", "1e3", " 12 ", "12, 12", "99999999999", "100000000000", "65536", "1000000", "0x10", "", "١٢",
+               # "digits" for str.isdigit() that int() refuses, and more digits than int() converts
+               "\u00b2\u00b3", "\u2460", "1\u00b2", "9" * 5000, "\uff11\uff12", "1_0", "+5", "5.0"]:
         for st in (400, 404, 500, 200):
-            big = cl.strip().isdigit() and int(cl) > REQ_CAP
+            try:
+                big = cl.strip().isdigit() and int(cl) > REQ_CAP
+            except ValueError:
+                big = False
             for then in ("eof", "silence"):
                 add(spec={"status": st, "extra": ["Content-Length: " + (cl.encode("utf-8").decode("latin-1"))], "body": "oops", "after": then},
                     declares_big=big)
